@@ -71,7 +71,7 @@ CHECKS = {
 }
 
 # rules added after the second round of independently seeded changes (appended to "decided")
-CMD = " Command layer (Engine D): the command's RunE literal is interpreted under scenarios of flag values (all distinct, all defaults, each boolean on/off incl. an explicit =false, each input unopenable, command-specific option values, each repeated with the library call failing) against a specification over the user-visible flag names: which library function is called, the value in every argument position, every file opened for reading / created-and-truncated / standard stream, failure before any library call for invalid options, and the library's error being RunE's result (deferred calls included); only boolean flags carry a no-option default; float flags have the reference width."
+CMD = " Command layer (Engine D): package cmd's init() functions are interpreted with models of the cobra/pflag registration API (a flag binding is the reference the flag writes through: a variable or a struct field, registered directly or through a helper), and the command's Args, PreRunE and RunE are interpreted in cobra's order under scenarios of flag values (all distinct, all defaults, each boolean on/off incl. an explicit =false, each input unopenable, command-specific option values, each repeated with the library call failing) against a specification over the user-visible flag names: which library function is called, the value in every argument position, every file opened for reading / created-and-truncated / standard stream, failure before any library call for invalid options, and the library's error being RunE's result (deferred calls included); only boolean flags carry a no-option default; float flags have the reference width."
 POOL = " Worker pools: for every processor count >= 1 and every --threads value the number of workers started is >= 1, WaitGroup.Add gets the same count, channel capacities are >= 0 (interval analysis over SSA with guard refinement); a channel closed on a completion token is closed only after the goroutines that send on it have finished (WaitGroup membership)."
 WIRE = " Entry points (Engine E): interpreted in a sequential pipeline model with every stage function replaced by a recorder: per scenario of the entry point's parameters the multiset of stages started with their scalar, data and stream arguments equals the specified wiring; nil when all stages complete; an error when any single stage reports one; invalid windows / reference counts / missing options fail before any worker starts. Argument-role rule: no positional argument is a variable named like a different parameter of the callee, and a caller's own same-named parameter is the one passed."
 DEFER = " No defer statement of a library function sits in a loop of its own frame whose trip count is not a compile-time constant (per-item resources are released per item)."
